@@ -152,12 +152,13 @@ def isinstance_term(t, classes):
 class TypeSpec(object):
     """kind: 'str','int','bool','none','obj','list','dict','set','tuple','any'; opt = may be None."""
 
-    def __init__(self, kind, classes=(), opt=False, elem=None, keyed=None):
+    def __init__(self, kind, classes=(), opt=False, elem=None, keyed=None, exact=False):
         self.kind = kind
         self.classes = tuple(classes)
         self.opt = opt
         self.elem = elem
         self.keyed = keyed      # dict kinds: {constant key: TypeSpec} overriding elem
+        self.exact = exact      # instance of exactly classes[0], not of a subclass
 
     def elem_for_key(self, key):
         if self.keyed and key in self.keyed:
@@ -165,7 +166,7 @@ class TypeSpec(object):
         return self.elem
 
     def with_opt(self, opt):
-        return TypeSpec(self.kind, self.classes, opt, self.elem, self.keyed)
+        return TypeSpec(self.kind, self.classes, opt, self.elem, self.keyed, self.exact)
 
     def __repr__(self):
         return 'TypeSpec(%s,%s,opt=%s,elem=%r)' % (self.kind, [c.__name__ for c in self.classes], self.opt, self.elem)
@@ -188,6 +189,8 @@ class TypeSpec(object):
             base = isinstance_term(t, (list,))
         elif k == 'tuple':
             base = isinstance_term(t, (tuple,))
+        elif k == 'dict' and self.exact:
+            base = And(Val.is_R(t), cls_of(Val.r(t)) == UNIVERSE.cid(self.classes[0]))
         elif k == 'dict':
             base = isinstance_term(t, self.classes if self.classes else (dict,))
         elif k == 'set':
@@ -323,3 +326,12 @@ def join_specs(h1, h2):
         cs = tuple(dict.fromkeys(h1.classes + h2.classes))
         return TypeSpec('obj', cs, h1.opt or h2.opt)
     return None
+
+
+CLASS_INVARIANTS = {}   # class -> [(field, python constant)]
+
+
+def class_invariant(cls, **fields):
+    """Data invariant: instances of cls always carry this constant in the field."""
+    for f, v in fields.items():
+        CLASS_INVARIANTS.setdefault(cls, []).append((f, v))
